@@ -282,7 +282,10 @@ impl Iterator for CharCategoryIter<'_> {
         }
 
         // char casts are safe, we are checking for correctness during the data load
-        let range = if self.current == self.categories.boundaries.len() {
+        let range = if self.categories.boundaries.is_empty() {
+            // a definition without any range: the whole domain has the single (default) category
+            ((0 as char)..char::MAX, self.categories.categories[0])
+        } else if self.current == self.categories.boundaries.len() {
             let left = char::from_u32(*self.categories.boundaries.last().unwrap()).unwrap();
             (left..char::MAX, *self.categories.categories.last().unwrap())
         } else if self.current == 0 {
